@@ -257,6 +257,17 @@ bool step(Circuit &c, const CircuitSpec &s, int mode, Tape &t, Report &R, double
     map.emplace_back(Rectangle((int)x0, (int)x1, (int)y0, (int)y1), (float)t.real(0.0, 3.0));
   }
   float fixedPenalty = t.flip() ? 0.0f : (float)t.real(0.0, 2.0), penaltyFactor = t.flip() ? 1.0f : (float)t.real(1.0, 3.0);
+  // the same rectangle reported more than once with other values (e.g. once per routing layer);
+  // decided after the other choices of this call
+  if (!map.empty()) {
+    int ndup = t.weighted({2, 1, 1});
+    for (int k = 0; k < ndup; ++k) {
+      Rectangle r = map[t.choose(0, (int)map.size() - 1)].first;
+      map.emplace_back(r, (float)t.real(0.0, 3.0));
+    }
+    if (ndup) R.classify("congestion-map:repeated-rectangles");
+    nr = (int)map.size();
+  }
   std::vector<float> got;
   try {
     got = c.computeCellExpansion(map, fixedPenalty, penaltyFactor);
